@@ -2756,6 +2756,105 @@ fn hup_stream(seed: u64, n: u64, cov: &mut Coverage, out: &mut dyn Write) -> u64
     lines
 }
 
+/// directed stream for the check-quorum lease: a follower that has just heard from its leader is sent vote and
+/// pre-vote requests of a later term — forced (the transfer context) or not, from a voter, a learner, an outgoing
+/// voter or a node it does not know — at every point of its election timeout
+fn lease_stream(seed: u64, n: u64, cov: &mut Coverage, out: &mut dyn Write) -> u64 {
+    let mut rng = Rng::new(seed ^ 0x1EA5_E000);
+    let mut lines = 0;
+    for _ in 0..n {
+        let et = 4 + rng.below(5) as usize;
+        let id = 1 + rng.below(3);
+        let c = Config {
+            id,
+            election_tick: et,
+            heartbeat_tick: 1,
+            max_inflight_msgs: 4,
+            check_quorum: !rng.chance(15),
+            pre_vote: rng.chance(50),
+            max_election_tick: et + (1usize << 40),
+            ..Default::default()
+        };
+        let mut cs = ConfState::default();
+        cs.set_voters(vec![1, 2, 3]);
+        match rng.below(4) {
+            0 => cs.set_learners(vec![4]),
+            1 => {
+                cs.set_voters_outgoing(vec![1, 2, 5]);
+                cs.set_learners_next(vec![5]);
+            }
+            2 => cs.set_voters(vec![1, 2, 3, 4]),
+            _ => {}
+        }
+        let k = 1 + rng.below(3);
+        let mut ents = vec![];
+        for j in 0..k {
+            let mut e = Entry::default();
+            e.index = 1 + j;
+            e.term = 1;
+            ents.push(e);
+        }
+        let mut hs = HardState::default();
+        hs.term = 1;
+        hs.commit = rng.below(k + 1);
+        let store = build_storage(&hs, &cs, (0, 0), &ents);
+        let pick = c.min_election_tick().max(1);
+        let (st, tok, line) = new_node(&c, store, (0, 0), Some(pick));
+        writeln!(out, "rn new {} {}", tok, line).unwrap();
+        lines += 1;
+        let Some(mut st) = st else { continue };
+        let leader = if id == 1 { 2 } else { 1 };
+        let mut ops: Vec<Op> = vec![];
+        let mut hb = Message::default();
+        hb.set_msg_type(MessageType::MsgHeartbeat);
+        hb.from = leader;
+        hb.to = id;
+        hb.term = 1;
+        hb.commit = hs.commit;
+        if !rng.chance(10) {
+            ops.push(Op::Step(hb));
+        }
+        let mut term = 1;
+        for _ in 0..(1 + rng.below(3)) {
+            for _ in 0..rng.below(et as u64 + 2) {
+                ops.push(Op::Tick);
+            }
+            let mut m = Message::default();
+            m.set_msg_type(if rng.chance(60) { MessageType::MsgRequestVote } else { MessageType::MsgRequestPreVote });
+            m.from = [3u64, 3, 4, 5, 9, leader][rng.below(6) as usize];
+            if m.from == id {
+                m.from = 4;
+            }
+            m.to = id;
+            term += 1 + rng.below(2);
+            m.term = term;
+            m.index = if rng.chance(75) { k } else { k.saturating_sub(1) };
+            m.log_term = if m.index > 0 { 1 } else { 0 };
+            if rng.chance(65) {
+                m.context = b"CampaignTransfer".to_vec().into();
+            }
+            ops.push(Op::Step(m));
+        }
+        for op in ops {
+            let a = op.args();
+            let (tok, obs, alive) = st.exec(&op, Some(pick), false);
+            if a.is_empty() {
+                writeln!(out, "rn {} {} -> {}", op.name(), tok, obs).unwrap();
+            } else {
+                writeln!(out, "rn {} {} {} -> {}", op.name(), tok, a, obs).unwrap();
+            }
+            lines += 1;
+            Coverage::bump(&mut cov.ops, op.name().into());
+            let rk = obs.split(" | ").next().unwrap_or("").to_string();
+            Coverage::bump(&mut cov.results, format!("lease-stream {}:{}", op.name(), if rk.starts_with("ok") { "ok".to_string() } else { rk }));
+            if !alive {
+                break;
+            }
+        }
+    }
+    lines
+}
+
 /// `rvh raftnode --seed S [--offset O] --runs N --steps K [--malformed] [--coverage FILE]`
 pub fn generate(seed: u64, offset: u64, runs: u64, steps: u64, malformed: bool, coverage_file: &str, out: &mut dyn Write) -> u64 {
     let mut cov = Coverage::default();
@@ -2767,6 +2866,7 @@ pub fn generate(seed: u64, offset: u64, runs: u64, steps: u64, malformed: bool, 
             lines += config_stream(run_seed, 12, &mut cov, out);
         }
         lines += hup_stream(run_seed, 10, &mut cov, out);
+        lines += lease_stream(run_seed, 6, &mut cov, out);
         let all: Vec<Vec<String>> = {
             let mut sim = cluster(run_seed, malformed, &mut cov);
             for i in 0..sim.nodes.len() {
